@@ -144,7 +144,9 @@ func encoderStep(cur ssa.Value, varintFns map[*types.Func]bool) (next ssa.Value,
 			its, err := appendItems(cc.Args[1], x)
 			return x, its, false, err
 		}
-		if obj := CalleeObj(cc); obj != nil && varintFns[obj.Origin()] {
+		if obj := CalleeObj(cc); obj != nil && (varintFns[obj.Origin()] || obj.FullName() == "encoding/binary.AppendUvarint") {
+			// encoding/binary's unsigned varint is the same little-endian base-128 encoding (C08.R2 compares the
+			// constants of the library's own encoder with it)
 			return x, []Item{{Kind: "varint", Src: R(cc.Args[1]), At: x}}, false, nil
 		}
 		return nil, nil, false, fmt.Errorf("unknown buffer consumer %s", renderCall(cc, 3))
